@@ -305,6 +305,7 @@ func (c09) Gen(r *simrt.Rand, idx int, tier string) *Case {
 		}
 	}
 	c.L = RandLayout(r, c.J, 6)
+	c.L.SpellMainUncleanly(r)
 	c.Today = "2030-01-01"
 	c.Scheds = []Sched{RandSched(r)}
 	return c
